@@ -1,5 +1,5 @@
 (** C04: actions run once each, in derivation order, with the right captured text. *)
-From PegV Require Import Model.Link Proofs.LinkProofs Base.Tac Spec.Syntax Spec.Peg Spec.Tokens Model.Machine Model.Runtime Model.Gen Proofs.Top Properties.Example.
+From PegV Require Import Model.Link Proofs.LinkProofs Base.Tac Spec.Syntax Spec.Peg Spec.Tokens Model.Machine Model.Runtime Model.Gen Proofs.Top Properties.Example Model.Analyses Model.Emit Model.SEmit Model.Exec Proofs.SEmitFile.
 
 (** Execute() over the tokens of a successful parse produces exactly the trace obtained by walking
     the derivation forest left to right: each action node of the derivation emits once, in order,
@@ -13,6 +13,17 @@ Theorem C04_execute_trace :
       execute g ptx (live st') (0, 0) = fst (trace_forest g ptx f (0, 0)).
 Proof. exact c04_execute. Qed.
 Print Assumptions C04_execute_trace.
+
+(** ... and so for the tokens the statements of the generated file record (Model/SEmit.v, Model/Exec.v, see C01) *)
+Theorem C04_generated_code_actions :
+  forall g ptx buf penv, good_grammar g -> good_buf buf -> good_switches g ->
+  forall memo inline n r st0 p f evs,
+    deep_table_b g inline = true -> slot_ok g inline r -> reached (count_rules g) r = true ->
+    peg_parse g ptx buf penv (S n) r = Some (Succ p f, evs) ->
+    forall res, xcall buf penv (mk_opts true memo inline g) (gen_fn g ptx inline) r (reset st0) res ->
+      exists st', res = Ret true st' /\ execute g ptx (live st') (0, 0) = fst (trace_forest g ptx f (0, 0)).
+Proof. exact generated_code_actions. Qed.
+Print Assumptions C04_generated_code_actions.
 
 (** non-vacuity: on "aby" the action of the abandoned first alternative does not run again;
     Action0 runs once with text = [0,2) *)
